@@ -209,6 +209,8 @@ def action_form(a, linear=False):
 
 
 class Case:
+    reuse_buffer_next = False      # set by the code that builds the next Case: its generator refills ONE preallocated game object
+
     def __init__(self, res: StreamResult, script: Script, name: str, n: int, comp: str, gap: str, budget,
                  initial: list[int], hidden: list[Hidden], prop: str, kind: str = "sa", linear: bool = False,
                  np_seed: int | None = None, approx_lin: bool = False):
@@ -218,6 +220,9 @@ class Case:
         self.hidden, self.kind, self.linear, self.np_seed, self.approx_lin = hidden, kind, linear, np_seed, approx_lin
         self.ops: list = []
         self.draws = 0
+        self.nreset = 0
+        self.reuse_buffer = Case.reuse_buffer_next
+        self._buf = None
         self.ik = set(initial) | {0, self.N - 1}
         self.explorable = [c for c in range(self.N) if c not in self.ik]
         self.revealed: set[int] = set()
@@ -235,7 +240,7 @@ class Case:
     def replay(self, extra=None) -> dict:
         d = {"n": self.n, "computer": self.comp, "gap": self.gap, "budget": self.budget, "initial": self.initial,
              "hidden_values": [[rs(x) for x in h.vals] for h in self.hidden[: max(2, self.draws)]],
-             "linear": self.linear, "np_seed": self.np_seed, "ops": list(self.ops)}
+             "linear": self.linear, "np_seed": self.np_seed, "ops": list(self.ops), "reuse_buffer": self.reuse_buffer}
         if extra:
             d.update(extra)
         return d
@@ -277,7 +282,16 @@ class Case:
         return h
 
     def gen(self):
-        return self.next_hidden().obj.copy()
+        h = self.next_hidden()
+        if self.reuse_buffer and isinstance(h.obj, self.M.Game):
+            # a generator that refills one preallocated game object and hands out the SAME object at every draw: what counts is
+            # what the object holds when it is drawn
+            if self._buf is None:
+                self._buf = h.obj.copy()
+            else:
+                self._buf.set_values(np.array(h.vals, dtype=float))
+            return self._buf
+        return h.obj.copy()
 
     # -- the fresh-game oracle -----------------------------------------------------------------
     def fresh(self, h: Hidden, K: frozenset):
@@ -475,7 +489,12 @@ class Case:
         self.registered = set()
         self.register(self.ik)
         try:
-            st, info = env.reset()
+            # gymnasium's reset takes a seed; the hidden game comes from the generator, so a seed — a repeated one included —
+            # never stands for "the same game again"
+            seed = [None, 7, None, 7, 7, 11][self.nreset % 6]
+            self.nreset += 1
+            st, info = env.reset() if seed is None else env.reset(seed=seed)
+            self.res.count("reset:seeded" if seed is not None else "reset:unseeded")
             ans = f"obs={rlist(st)}"
             self.keep_obs(st, "reset")
             self.revealed, self.steps = set(), 0
@@ -956,6 +975,7 @@ def run(tier: str, budget: Budget, rnd, arg: str) -> StreamResult:
             # numpy's float sums of normalised values round unless the values are short dyadics (family own_pow2)
             approx = linear and not all(Fraction(x).denominator <= 2 ** 20 and abs(x) < 2 ** 20 for h in hs for x in h.norm)
             res.count(f"linear-observation:{'tolerance' if approx else 'exact'}" if linear else "exact-protocol")
+            Case.reuse_buffer_next = cid % 4 == 3
             c = Case(res, script, f"c{cid}", n, comp, gap, bud, init, hs, {"C08env": "C08", "C07env": "C07"}.get(arg, arg), kind,
                      linear=linear, np_seed=(rnd.randrange(2 ** 31) if linear else None), approx_lin=approx, **kw)
             if res.samples is not None and len(res.samples) < 3:
@@ -1185,6 +1205,7 @@ def replay(prop: str, payload: dict):
     script = Script()
     n = inp["n"]
     hs = [Hidden(table_game(n, [Fraction(x) for x in vals]), n) for vals in inp["hidden_values"]]
+    Case.reuse_buffer_next = bool(inp.get("reuse_buffer"))
     c = Case(res, script, "r", n, inp["computer"], inp["gap"], inp["budget"], inp["initial"], hs, prop,
              linear=inp.get("linear", False), np_seed=inp.get("np_seed"), approx_lin=True)
     if c.alive:
